@@ -916,13 +916,17 @@ func (m *Machine) makeSlice(tElt types.Type, ln, cp *Term, what string) []value 
 		if n < 0 {
 			m.targetPanic("runtime error: makeslice: len out of range")
 		}
-		if n > int64(1<<13) {
+		maxMat := int64(1 << 13)
+		if m.opts.MaxMat > 0 {
+			maxMat = int64(m.opts.MaxMat)
+		}
+		if n > maxMat {
 			if m.opts.AllocBudget > 0 && n*esz > m.opts.AllocBudget {
 				m.violationNow("alloc", "bounded-alloc", fmt.Sprintf("%s of %d elements × %d bytes", what, n, esz),
 					map[string]string{"site": m.where()})
 				panic(&abortPath{kind: "violation-stop", reason: "oversized allocation"})
 			}
-			m.outside("%s of more than 8192 elements is beyond the engine's materialisation limit", what)
+			m.outside("%s of more than %d elements is beyond the engine's materialisation limit", what, maxMat)
 		}
 		return n
 	}
